@@ -385,7 +385,6 @@ func ruleOwnFieldDiscipline(c *Ctx, r *R) {
 	}
 }
 
-
 // closedByJoinedGoroutines: the elements of slice field wf.field are not closed by Close itself but by goroutines that Close
 // waits for: Close (or a helper it calls) waits on a WaitGroup field of the receiver; a method of the same type defers
 // wg.Done() on that field and defers Close of recv.<field>[i] for its index parameter i; and that method is started with `go`
